@@ -202,6 +202,94 @@ func C11(r *h.Run) {
 		}
 	}
 
+	// ---- the first Send of a call fails before anything is written (the codec refuses the
+	// message): the handler's trailers and the error's metadata still reach the client ----
+	for _, proto := range protos {
+		for _, kind := range []string{"unary", "server"} {
+			for _, via := range []e2eTransport{viaLocal, viaHTTP1, viaHTTP2} {
+				var copts []connect.ClientOption
+				switch proto {
+				case "grpc":
+					copts = append(copts, connect.WithGRPC())
+				case "grpcweb":
+					copts = append(copts, connect.WithGRPCWeb())
+				}
+				copts = append(copts, connect.WithCodec(h.ToyCodec{}))
+				hopts := []connect.HandlerOption{connect.WithCodec(h.ToyCodec{})}
+				unmarshalable := []byte{0xEE, 0xEE, 0xEE}
+				mux := http.NewServeMux()
+				mux.Handle("/verif.Svc/Unary", connect.NewUnaryHandler("/verif.Svc/Unary", func(_ context.Context, _ *connect.Request[h.Raw]) (*connect.Response[h.Raw], error) {
+					res := connect.NewResponse(&h.Raw{B: unmarshalable})
+					res.Trailer().Set("X-T", "t1")
+					res.Header().Set("X-H", "h1")
+					return res, nil
+				}, hopts...))
+				mux.Handle("/verif.Svc/Server", connect.NewServerStreamHandler("/verif.Svc/Server", func(_ context.Context, _ *connect.Request[h.Raw], st *connect.ServerStream[h.Raw]) error {
+					st.ResponseTrailer().Set("X-T", "t1")
+					st.ResponseHeader().Set("X-H", "h1")
+					if err := st.Send(&h.Raw{B: unmarshalable}); err != nil {
+						e := connect.NewError(connect.CodeInternal, err)
+						e.Meta().Set("X-E", "e1")
+						return e
+					}
+					return nil
+				}, hopts...))
+				var hc connect.HTTPClient = &h.LocalClient{Handler: mux}
+				base := "http://verif.local"
+				var srv *httptest.Server
+				if via != viaLocal {
+					srv = httptest.NewUnstartedServer(mux)
+					if via == viaHTTP2 {
+						srv.EnableHTTP2 = true
+						srv.StartTLS()
+					} else {
+						srv.Start()
+					}
+					hc, base = srv.Client(), srv.URL
+				}
+				var callErr error
+				p := safely(func() {
+					if kind == "unary" {
+						_, callErr = connect.NewClient[h.Raw, h.Raw](hc, base+"/verif.Svc/Unary", copts...).CallUnary(context.Background(), connect.NewRequest(&h.Raw{B: []byte("q")}))
+					} else {
+						st, err := connect.NewClient[h.Raw, h.Raw](hc, base+"/verif.Svc/Server", copts...).CallServerStream(context.Background(), connect.NewRequest(&h.Raw{B: []byte("q")}))
+						if err != nil {
+							callErr = err
+							return
+						}
+						for st.Receive() {
+						}
+						callErr = st.Err()
+						_ = st.Close()
+					}
+				})
+				if srv != nil {
+					srv.Close()
+				}
+				in := map[string]any{"proto": proto, "kind": kind, "via": via, "handler": "sets header X-H and trailer X-T, then its first (only) response message cannot be marshalled"}
+				r.Eval("first_send_fails", fmt.Sprint(proto, kind, via))
+				if p != nil {
+					r.Fail(h.Failure{Key: "metadata/panic-or-hang", Family: "first_send_fails", What: fmt.Sprint(p), Input: in})
+					continue
+				}
+				var ce *connect.Error
+				if callErr == nil || !errors.As(callErr, &ce) {
+					r.Fail(h.Failure{Key: "metadata/error-lost", Family: "first_send_fails", What: "the failure did not arrive as a *connect.Error", Input: in, Actual: fmt.Sprint(callErr)})
+					continue
+				}
+				r.Sample("first_send_fails", map[string]any{"in": in, "client_error": callErr.Error(), "meta": ce.Meta()})
+				want := http.Header{"X-T": {"t1"}, "X-H": {"h1"}}
+				if kind == "server" {
+					want["X-E"] = []string{"e1"}
+				}
+				checkSub("first_send_fails", "error-metadata", in, want, ce.Meta())
+				if ce.Code() != connect.CodeInternal {
+					r.Fail(h.Failure{Key: "metadata/error-lost", Family: "first_send_fails", What: "the marshalling failure did not arrive with its code (internal)", Input: in, Actual: callErr.Error()})
+				}
+			}
+		}
+	}
+
 	// ---- names that net/http does not allow as HTTP trailers (RFC 7230 4.1.2: routing,
 	// request modifiers, authentication, caching controls) are still valid header names for an
 	// application to use as response trailers or error metadata ----
